@@ -1,7 +1,7 @@
 """C10 — unknown enum values and union variants survive a round trip unless exhaustive (partial)."""
 from ..facts import ty_adt, tystr, walk_ty, place_local, place_proj, op_place, strip_refs
 from ..cfg import CFG, Tracer, thaw
-from .. import dt, instance, gentypes, minterp
+from .. import dt, instance, gentypes, minterp, recog
 from . import c17
 
 VARIANT = gentypes.VARIANT
@@ -183,6 +183,11 @@ def run(ctx):
                         if none and any(dt.derives_from_call(b, atom[1]["args"][0], kb, vt) for kb, _ in nk):
                             good = True
             ctx.check((good and len(oks) == 1) or (not oks and not u.names), "R10.4", b.loc(), f"{u.path}|visit_map|no-third-member", f"{who}: Ok(value) must be returned only after checking that no further member follows", instance=f"{who}: Ok dominated by 'no third member'")
+            insts, probs = gentypes.union_agreement(u, ct, F)
+            for x in insts:
+                ctx.ok("R10.4", b.loc(), f"{who}: member-first order accepted only if {x}")
+            for k_, w_ in probs:
+                ctx.violation("R10.4", b.loc(), f"{u.path}|visit_map|{k_}", f"{who}: a document whose member and `type` disagree must be rejected in the member-first order — {w_}")
             neq = [t for _, t in b.calls() if t["call"]["def"] in ("core::cmp::PartialEq::ne", "core::cmp::PartialEq::eq")]
             ctx.check(len(neq) >= (2 if (u.config == "default" and unk) else 1) or not members, "R10.4", b.loc(), f"{u.path}|visit_map|disagreement", f"{who}: type/member disagreement must be detected in the value-first order (and for unknown names)", instance=f"{who}: type vs member compared", nontrivial=False)
     for cfgname in ("default", "exhaustive"):
@@ -215,36 +220,20 @@ def run(ctx):
                     ok = bool(a1) and a1 <= a2
             ctx.check(ok, "R10.3", x.loc(s["ln"]), f"{x.id}|variant-guarded", f"{x.id}: Variant constructed without being guarded by the name predicate on the same string", instance=f"{x.id}: Variant(s) guarded by predicate(s)")
         ctx.floor("R10.3", "Variant construction sites", len(vsites), 2)
-        # byte class by constant propagation
-        clos = co.closures_of(p)
-        alls = [t for _, t in p.calls() if t["call"]["name"] == "all"]
-        empt = [t for _, t in p.calls() if t["call"]["name"] == "is_empty"]
-        if len(clos) == 1 and len(alls) == 1:
-            I = minterp.Interp(F, co)
-            acc = set()
-            try:
-                for byte in range(256):
-                    r = I.run(clos[0], [("sym", "env"), byte])
-                    if r is True:
-                        acc.add(byte)
-                    elif r is not False:
-                        raise minterp.Unsupported(f"non-boolean {r!r}")
-                want = set(b"ABCDEFGHIJKLMNOPQRSTUVWXYZ0123456789_")
-                ctx.check(acc == want, "R10.3", clos[0].loc(), "name-class|bytes", f"enum-name byte class: wrongly accepted {sorted(chr(x) for x in acc - want)}, wrongly rejected {sorted(chr(x) for x in want - acc)}",
-                          instance=f"name class = [A-Z0-9_] ({len(acc)} bytes, all 256 evaluated)")
-            except minterp.Unsupported as e_:
-                ctx.violation("R10.3", clos[0].loc(), "name-class|unsupported", f"name predicate left the analysable fragment: {e_}")
-            cfg = CFG(p)
-            falses = [bb for bb, j, s in p.stmts() if place_local(s["d"]) == 0 and "use" in s["r"] and (s["r"]["use"].get("c") or {}).get("bool") is False]
-            ok = False
-            for fb in falses:
-                for sbb, allowed, allv in dt.edge_conditions(cfg, fb):
-                    atom = dt.switch_atom(p, sbb)
-                    if atom[0] == "call" and atom[1]["call"]["name"] == "is_empty" and dt.bool_polarity(allowed) is True:
-                        ok = True
-            ctx.check(ok and len(empt) == 1, "R10.3", p.loc(), "name-class|non-empty", "the empty string must be rejected", instance="name class: non-empty")
-        else:
-            ctx.violation("R10.3", p.loc(), "name-class|shape", "name predicate is not `non-empty && bytes.all(class)`")
+        # name class: truth table of the validator over (emptiness test, all()) and the per-unit class by constant propagation
+        try:
+            an = recog.analyse(F, co, p)
+            want = set(b"ABCDEFGHIJKLMNOPQRSTUVWXYZ0123456789_")
+            acc = an["accepted"]
+            show = lambda x: chr(x) if 32 < x < 127 else f"U+{x:04X}"
+            ctx.check(acc == want, "R10.3", an["pred"].loc(), "name-class|bytes", f"enum-name class: wrongly accepted {[show(x) for x in sorted(acc - want)[:8]]}, wrongly rejected {[show(x) for x in sorted(want - acc)[:8]]}",
+                      instance=f"name class = [A-Z0-9_] ({len(acc)} accepted, {an['domain']} {an['unit']} values evaluated)")
+            trp = Tracer(p, through_calls=True)
+            rooted = all(trp.root_locals(t["args"][0]) == {1} for _, t in (an["all_call"], an["empty_call"]))
+            ctx.check(an["law_ok"] and rooted, "R10.3", p.loc(), "name-class|non-empty", "the name predicate must return true exactly when the name is non-empty and every unit is in the class"
+                      + (f" — {an['witness']}" if an["witness"] else "") + ("" if rooted else " — the tests do not look at the argument"), instance="name class: true iff non-empty && all(class)")
+        except recog.NotAnalysable as e_:
+            ctx.violation("R10.3", p.loc(), "name-class|shape", f"name predicate left the analysable fragment (non-empty && all(class)): {e_}")
     # ---------------- R10.5 generator
     tm = F.tmpl()
     if tm is not None:
